@@ -207,6 +207,35 @@ def lifecycle_owner_misuse(s):
     s.do(E("usr2", {"k": "delete_listing", "id": 2}), "misuse")
 
 
+def integer_truncation(s):
+    """C08 / C09 / C14: u64 fields whose low 32 (or 16) bits look legal — lifetimes k*2^32 + r,
+    ids that differ only above bit 32, bps above 2^32."""
+    ask = G(n=[["uosmo", 7]])
+    for i, secs in enumerate([2 ** 32 + 600, 2 ** 32 + 1209600, 2 * 2 ** 32 + 3600, 3 * 2 ** 32 + 86400, 2 ** 32 + 599,
+                              2 ** 16 * 2 ** 32 + 600, 2 ** 53 + 600, 2 ** 63 + 3600], start=1):
+        listing(s, "usr0", i, [["uatom", i]], ask, finalize=False)
+        s.do(E("usr0", {"k": "finalize", "id": i, "secs": secs}), "valid")          # all refused
+        s.do(E("usr0", {"k": "delete_listing", "id": i}), "valid")                 # still in preparation: refundable at once
+    # ids that coincide modulo 2^32 are different ids
+    listing(s, "usr1", 20, [["uatom", 1]], ask, secs=600)
+    listing(s, "usr2", 2 ** 32 + 20, [["uatom", 2]], ask, secs=600)
+    bucket(s, "usr3", 20, [["uosmo", 7]])
+    bucket(s, "usr4", 2 ** 32 + 20, [["uosmo", 7]])
+    buy(s, "usr3", 2 ** 32 + 20, 20)
+    buy(s, "usr4", 20, 2 ** 32 + 20)
+    s.do(E("usr3", {"k": "withdraw_purchased", "id": 20}), "valid")                # refused: usr3 bought 2^32+20
+    s.do(E("usr3", {"k": "withdraw_purchased", "id": 2 ** 32 + 20}), "valid")
+    s.do(E("usr4", {"k": "withdraw_purchased", "id": 20}), "valid")
+    s.do(E("usr2", {"k": "remove_bucket", "id": 20}), "valid")
+    s.do(E("usr1", {"k": "remove_bucket", "id": 2 ** 32 + 20}), "valid")
+    # registry: a rate whose low bits are legal
+    s.do({"t": "reg", "sender": "usr5", "msg": {"k": "register", "coll": COLL1, "payout": "usr5", "bps": 2 ** 32 + 100}}, "valid")
+    s.do({"t": "reg", "sender": "usr5", "msg": {"k": "register", "coll": COLL1, "payout": "usr5", "bps": 2 ** 16 + 100}}, "valid")
+    s.do({"t": "reg", "sender": "usr5", "msg": {"k": "register", "coll": COLL1, "payout": "usr5", "bps": 100}}, "valid")
+    adv(s, 10, dh=100)
+    s.do({"t": "reg", "sender": "usr5", "msg": {"k": "update", "coll": COLL1, "payout": None, "bps": 2 ** 32 + 200}}, "valid")
+
+
 def fee_boundaries(s):
     """C06 / C17: amounts around multiples of 200, both fee denominations."""
     lid = 0
@@ -638,6 +667,7 @@ SCRIPTS = {
     "interleaved_collections": (world.default_cfg, interleaved_collections, ()),
     "same_id_two_owners": (world.default_cfg, same_id_two_owners, ()),
     "lifecycle_owner_misuse": (world.default_cfg, lifecycle_owner_misuse, ()),
+    "integer_truncation": (world.default_cfg, integer_truncation, ()),
     "fee_boundaries": (world.default_cfg, fee_boundaries, ()),
     "royalties_both_sides": (world.default_cfg, royalties_both_sides, ()),
     "royalty_cap": (royalty_cap_cfg, royalty_cap, ()),
